@@ -247,7 +247,9 @@ def c16(rng, tier):
                 ok = abs(got - want) <= 1e-8 * max(1.0, abs(want))
                 yield case, (None if ok else 'n-th derivative: got %r, mpmath gives %r' % (got, want))
     extra = [('polygamma', (1,), lambda v: mp.psi(1, v), (0.5, 3)), ('polygamma', (2,), lambda v: mp.psi(2, v), (0.5, 3)), ('hyperu', (1.5, 0.5), lambda v: mp.hyperu(1.5, 0.5, v), (0.5, 2)),
-             ('hyperu', (0.5, 1.5), lambda v: mp.hyperu(0.5, 1.5, v), (0.5, 2)), ('clip', (0.1, 0.9), lambda v: v, (0.3, 0.7)), ('clip', (0.1, 0.2), lambda v: v * 0 + mp.mpf('0.2'), (0.3, 0.7))]
+             ('hyperu', (0.5, 1.5), lambda v: mp.hyperu(0.5, 1.5, v), (0.5, 2)),
+             ('hyperu', (-0.5, 2.0), lambda v: mp.hyperu(-0.5, 2.0, v), (0.5, 2)), ('hyperu', (-1.5, 0.5), lambda v: mp.hyperu(-1.5, 0.5, v), (0.5, 2)), ('hyperu', (-2.5, 1.5), lambda v: mp.hyperu(-2.5, 1.5, v), (0.5, 2)),          # negative non-integer a: the rising factorial (a)_n changes sign with n
+             ('polygamma', (0,), lambda v: mp.psi(0, v), (0.5, 3)), ('polygamma', (3,), lambda v: mp.psi(3, v), (0.5, 3)), ('clip', (0.1, 0.9), lambda v: v, (0.3, 0.7)), ('clip', (0.1, 0.2), lambda v: v * 0 + mp.mpf('0.2'), (0.3, 0.7))]
     for name, params, f, dom in extra:
         g = getattr(nd, name)
         for x in [native.rnd(rng, dom[0], dom[1], 16) for _ in range(3)]:
